@@ -668,7 +668,9 @@ func c01(c *Ctx) {
 			ns++
 			r.Check("receiveTimer:sampled-count", ok, st.Pos(), "SampledCount <- "+p)
 		}
-		r.Check("receiveTimer:sampled-count-sites", ns >= 3, rt.Pos(), fmt.Sprintf("%d SampledCount stores (found, new tag set, new name)", ns))
+		// (found / new tag set / new name; the two constructions may share one site) and every constructed timer gets one
+		nNew := len(callsTo(rt, "gostatsd.NewTimer"))
+		r.Check("receiveTimer:sampled-count-sites", ns >= 2 && ns >= nNew+1, rt.Pos(), fmt.Sprintf("%d SampledCount stores for the found case and %d NewTimer sites", ns, nNew))
 		// every NewTimer call in receiveTimer is followed by a SampledCount store on all paths to the map update
 		for _, call := range callsTo(rt, "gostatsd.NewTimer") {
 			ok := false
